@@ -20,7 +20,7 @@ import (
 func init() {
 	Registry["C14"] = RunC14
 	Metas["C14"] = Meta{
-		Rule:           "episode = streamed request A (fixed length below/at/above the 8 KiB prefetch or chunked with chunk sizes around buffer edges, trailers, Expect:100) + pipelined probe request B (sent with A or only after A's response) on one simulated connection; A's handler runs a generated consumption program (Read sizes from {1,2,100,4096,8192,8193,65536}, stop after k bytes: exhaustive k for bodies <= 64, sampled otherwise, incl. never-touch, stop mid-chunk, stop before the last chunk, read past EOF); seeded fragmentation incl. body bytes arriving while the handler reads. Non-trivial: handler stops before the end of a body > 0 or >= 2 fragments inside the body; distinct = abstract signature (framing, size bucket, stop class, read-size buckets, fragment buckets). Added later: GET requests with a body; a second connection streaming a request body at the same time, with tracer hooks as scheduling points inside the epilogue of Serve.",
+		Rule:           "episode = streamed request A (fixed length below/at/above the 8 KiB prefetch or chunked with chunk sizes around buffer edges, trailers, Expect:100) + pipelined probe request B (sent with A or only after A's response) on one simulated connection; A's handler runs a generated consumption program (Read sizes from {1,2,100,4096,8192,8193,65536}, stop after k bytes: exhaustive k for bodies <= 64, sampled otherwise, incl. never-touch, stop mid-chunk, stop before the last chunk, read past EOF); seeded fragmentation incl. body bytes arriving while the handler reads. Non-trivial: handler stops before the end of a body > 0 or >= 2 fragments inside the body; distinct = abstract signature (framing, size bucket, stop class, read-size buckets, fragment buckets). Added later: GET requests with a body; a second connection streaming a request body at the same time, with tracer hooks as scheduling points inside the epilogue of Serve. Later still: the peer's FIN inside the body (an error, never a clean end-of-stream), bodies in thousands of one-byte chunks left unread.",
 		Real:           []string{"ext.bodyStream.Read/skipRest/ReleaseBodyStream", "ext.ReadBodyWithStreaming", "req.ReadBodyStream/ContinueReadBodyStream", "utils.ParseChunkSize/SkipCRLF", "http1.Server.Serve", "standard.Conn"},
 		Stub:           []string{"TCP (SimConn)", "peer (scripted actor)", "transporter accept loop (stub)", "clock (synctest)"},
 		Assumptions:    []string{"standard transport only", "MaxRequestBodySize left at its default (above every generated body)"},
